@@ -43,7 +43,7 @@ theorem absStep_sound {V : Type} (I : Interp N V) (args : N → V) (a : N) (st :
         AbsRel I args a (absStep a st (.write b e c)) (assocSet b (evalExpr I args e) s)) ∧
     (∀ b e, AbsRel I args a (absStep a st (.write b e true)) s) ∧
     (∀ s', AbsRel I args a (absStep a st .havoc) s') ∧
-    (∀ al, AbsRel I args a (absStep a st (.raise al)) s) := by
+    (∀ al ex, AbsRel I args a (absStep a st (.raise al ex)) s) := by
   refine ⟨?_, ?_, ?_, ?_⟩
   · intro b e c _
     by_cases hb : b = a
@@ -70,7 +70,7 @@ theorem absStep_sound {V : Type} (I : Interp N V) (args : N → V) (a : N) (st :
     · simpa [absStep, hb] using h
   · intro s'
     simp [absStep, AbsRel]
-  · intro al
+  · intro al ex
     simpa [absStep] using h
 
 theorem absFrom_sound {V : Type} (I : Interp N V) (args : N → V) (a : N) :
@@ -119,7 +119,7 @@ theorem absFrom_sound {V : Type} (I : Interp N V) (args : N → V) (a : N) :
           | absent => simpa [AbsRel, assocGet_assocSet_ne b a _ s hb] using h
           | is e' => simpa [AbsRel, assocGet_assocSet_ne b a _ s hb] using h
           | unknown => simp [AbsRel]
-    | raise al =>
+    | raise al ex =>
       by_cases hc : (al || I.choice i) = true
       · simp [runPrims, hc] at hr
       · simp only [runPrims, hc] at hr
@@ -142,7 +142,7 @@ theorem runPrims_total {V : Type} (I : Interp N V) (args : N → V) :
       by_cases hc : (c && !I.choice i) = true
       · simp only [runPrims, hc, if_true]; exact ih _ _ h'
       · simp only [runPrims, hc]; exact ih _ _ h'
-    | raise al => simp [mayRaise] at h
+    | raise al ex => simp [mayRaise] at h
     | havoc =>
       have h' : mayRaise rest = false := by simpa [mayRaise] using h
       simp only [runPrims]; exact ih _ _ h'
